@@ -524,6 +524,12 @@ def run(tier, seed, t0):
                     flatchk=fc, flatcrit=crit, conv=math.exp(0.6))
         for st_ in range(2):
             shards.append((pcfg, 0, base_seed, 170 + 2 * ci + st_, 1500, None))
+    # one bin and a flat check after every step: f is square-rooted at every step, so ln f falls far below the spacing of single-
+    # precision numbers around g within 30 steps (the update of g must be carried out in double precision)
+    for ci, (pd, cvx) in enumerate(((1, 2.0 ** -30), (2, 2.0 ** -28), (3, 2.0 ** -26))):
+        tcfg = dict(name="KKKEEEGG/1bin/p%d/conv=exp(%r)/tiny-lnf" % (pd, cvx), seq="KKKEEEGG", nbins=1, binmin=0, binmax=1, flatchk=pd,
+                    flatcrit=0.9, conv=math.exp(cvx))
+        shards.append((tcfg, 0, base_seed, 190 + ci, 3000, None))
     # thresholds at or above the initial f = e: the run has converged before it starts and must take no step
     for ci, cv in enumerate((math.e, float(np.exp(1)), 3.0, 10.0, math.nextafter(math.e, 3.0))):
         zcfg = dict(name="KKEEGG/2bins[0,1]/p3/conv=%r/zero-steps" % cv, seq="KKEEGG", nbins=2, binmin=0, binmax=1, flatchk=3, flatcrit=0.3, conv=cv)
@@ -553,7 +559,7 @@ def run(tier, seed, t0):
         PROP, tier, seed, acc, t0,
         rule="state = one complete Wang-Landau execution = (configuration, tape of answers to every random draw). %d configurations "
              "(6-8 residue sequences, one of them with frozen residues; 1/2/4 bins over [0,1], [0,.5], [.5,1]; flat-check period 1-8; flatness .3/.5/.9; one to three "
-             "f-updates; one with f == threshold exactly, five with the threshold at or above the initial f = e: zero steps; four with flat-check periods 41/45/64/70 and three with flatness criterion 0) x base tapes derived from VERIF_SEED x ALL tapes within d deviations of the "
+             "f-updates; one with f == threshold exactly, five with the threshold at or above the initial f = e: zero steps; three one-bin runs down to ln f = 2^-30 / 2^-28 / 2^-26; four with flat-check periods 41/45/64/70 and three with flatness criterion 0) x base tapes derived from VERIF_SEED x ALL tapes within d deviations of the "
              "base tape (%s), horizon 400 choice points, retry bound inside a move. Menus: every value of every _randbelow (cap 12), "
              "one float inside each of the four move-selection intervals, both sides of the 0.5 coin, and for the acceptance draw "
              "{0, p(1-1e-9), p, p(1+1e-9), 1-1e-12} with p computed by the reference model. The reference WL machine consumes the hook's "
